@@ -251,14 +251,20 @@ func (queue *Queue) PopQos(qosList []*qos.AmqpQos) *amqp.Message {
 	var message *amqp.Message
 	if message = queue.SafeQueue.HeadItem(); message != nil {
 		allowed := true
+		charged := make([]*qos.AmqpQos, 0, len(qosList))
 		for _, q := range qosList {
 			if !q.IsActive() {
 				continue
 			}
 			if !q.Inc(1, uint32(message.BodySize)) {
 				allowed = false
+				// release what was already reserved in the previous qos
+				for _, c := range charged {
+					c.Dec(1, uint32(message.BodySize))
+				}
 				break
 			}
+			charged = append(charged, q)
 		}
 
 		if allowed {
